@@ -181,3 +181,14 @@ Definition py_edges_data (es : list (N * N)) (flows : list (N * N * Q)) : list (
   map (fun e => (fst e, snd e, py_dict_find edge_eqb flows e)) es.
 Definition enc_obj (o : option (lexp * bool)) : list Z :=
   match o with None => [0%Z] | Some (e, mx) => (if mx then 2%Z else 1%Z) :: enc_Q (lconst e) ++ enc_lin (lterms e) end.
+
+(* variables indexed by an edge (u, v): Err u v = V fErr [u; v] *)
+Definition vkeyE (e : N * N) : list N := [fst e; snd e].
+(* the builtin sum(<solver expressions>): 0 + e0 + e1 + ... *)
+Definition py_sum_lexp (l : list lexp) : lexp := fold_left LAdd l (LConst 0).
+Lemma leval_sum_lexp : forall a l, leval a (py_sum_lexp l) == sumq (leval a) l.
+Proof.
+  intros a l. unfold py_sum_lexp. assert (G : forall l e, leval a (fold_left LAdd l e) == leval a e + sumq (leval a) l).
+  { induction l0 as [|x l0 IH]; intro e; cbn [fold_left sumq]; [ring | rewrite IH; cbn [leval]; ring]. }
+  rewrite G. cbn [leval]. ring.
+Qed.
